@@ -42,12 +42,23 @@ Range(s) == {s[i] : i \in 1..Len(s)}
 
 GNodes(g) == Range(g.nodes)
 GEdges(g) == {<<e[1], e[2]>> : e \in Range(g.edges)}
-PredsOf(g, n) == {e[1] : e \in {x \in GEdges(g) : x[2] = n}}
-RECURSIVE AncOf(_, _)
-AncOf(g, n) == LET P == PredsOf(g, n) \ {START} IN P \cup UNION {AncOf(g, p) : p \in P}
+\* branches: [from, ends, sel] -- the condition of the harness statically selects `sel` (a non-empty subset of `ends`)
+GBranches(g) == Range(g.branches)
+CtrlPreds(g, n) == {e[1] : e \in {x \in GEdges(g) : x[2] = n}} \cup {b.from : b \in {x \in GBranches(g) : n \in Range(x.ends)}}
+Routes(g, p, n) == <<p, n>> \in GEdges(g) \/ \E b \in GBranches(g) : b.from = p /\ n \in Range(b.sel)
+\* all-predecessor trigger with skip propagation: a node runs iff some control predecessor ran and routed to it
+RECURSIVE RunsOf(_, _)
+RunsOf(g, n) == n = START \/ \E p \in CtrlPreds(g, n) : RunsOf(g, p) /\ Routes(g, p, n)
+\* superstep in which n is resolved (batch): a running node one step after its last predecessor, a skipped node with it
 RECURSIVE LevelOf(_, _)
-LevelOf(g, n) == IF n = START \/ PredsOf(g, n) = {} THEN 0
-                 ELSE LET ls == {LevelOf(g, p) : p \in PredsOf(g, n)} IN 1 + (CHOOSE m \in ls : \A y \in ls : y <= m)
+LevelOf(g, n) == IF n = START \/ CtrlPreds(g, n) = {} THEN 0
+                 ELSE LET ls == {LevelOf(g, p) : p \in CtrlPreds(g, n)}
+                          m == CHOOSE x \in ls : \A y \in ls : y <= x
+                      IN IF RunsOf(g, n) THEN m + 1 ELSE m
+\* the running nodes that must have finished before n can start (through skipped nodes transitively)
+RECURSIVE DepOf(_, _)
+DepOf(g, n) == UNION {IF p = START THEN {} ELSE IF RunsOf(g, p) THEN {p} \cup DepOf(g, p) ELSE DepOf(g, p) : p \in CtrlPreds(g, n)}
+RunSet(g) == {n \in GNodes(g) : RunsOf(g, n)}
 IsBatch(g) == g.mode \in {"dag", "pregel"}
 FailKindOf(g, n) == IF \E f \in Range(g.fail) : f.n = n THEN (CHOOSE f \in Range(g.fail) : f.n = n).kind ELSE "none"
 
@@ -62,7 +73,9 @@ OnCase(S, e) == [g |-> e, begun |-> {}, done |-> {}, failed |-> {}, execs |-> {}
 OnExec(S, e) == LET g == S.g  n == e.n IN
   IF n \notin GNodes(g) THEN Bad(S, "exec-of-unknown-node")
   ELSE IF n \in S.begun THEN Bad(S, "node-executed-twice")
-  ELSE IF \E p \in PredsOf(g, n) \ {START} : p \notin S.done THEN Bad(S, "exec-before-predecessor-finished")
+  ELSE IF \E p \in CtrlPreds(g, n) \ {START} : p \in Running(S) \/ (g.branches = <<>> /\ p \notin S.done)
+       THEN Bad(S, "exec-before-predecessor-finished")
+  ELSE IF \E s \in S.begun : n \in CtrlPreds(g, s) THEN Bad(S, "predecessor-started-after-successor")
   ELSE IF IsBatch(g) /\ \E m \in Running(S) : LevelOf(g, m) < LevelOf(g, n) THEN Bad(S, "batch-step-overlap")
   ELSE [S EXCEPT !.begun = S.begun \cup {n}, !.execs = S.execs \cup {<<n, e.i>>}]
 
@@ -87,7 +100,7 @@ Compare(S, res, ex) ==
   ELSE IF S.ref.ex # ex THEN Bad(S, "executions-depend-on-completion-order")
   ELSE [S EXCEPT !.st = "ended"]
 
-OnResult(S, e) == LET g == S.g  anc == AncOf(g, END) IN
+OnResult(S, e) == LET g == S.g  anc == DepOf(g, END) IN
   IF S.failed \cap anc # {} THEN Bad(S, "result-although-a-feeding-node-failed")
   ELSE IF \E p \in anc : p \notin S.done THEN Bad(S, "return-before-end-feeders-finished")
   ELSE IF IsBatch(g) /\ Running(S) # {} THEN Bad(S, "return-while-step-node-running")
